@@ -51,6 +51,7 @@ SPEC = {
   ],
   'assumptions': [
     'nested State <-> flat path map conversions are the identity on prefix-free path maps (property C16)',
+    'a State is a mapping: the model takes each state as an ORDERED list of (path, leaf) pairs in any order and sorts the concatenation, so merge_any_order covers unsorted insertion order inside one state (merge_state / | / from_flat_path / hand-written dicts); the harness feeds such re-joined and shuffled mappings to nnx.merge',
     'pytree containers are values: a list/dict object shared by two graph nodes is duplicated by split/merge (finding F8, known, key shared-pytree-container)',
     'array leaves and Variable values are opaque immutable payloads (interned to integers); nnx.clone shares NumPy buffers by reference (observation)',
     'sibling keys are homogeneous (all int or all str), as sorted() requires',
@@ -705,6 +706,65 @@ def stree_json(flat):
   return conv(root)
 
 
+def flat_objs(state):
+  """nested State / dict -> [(path tuple, the real leaf object)]"""
+  out = []
+
+  def rec(prefix, x):
+    if isinstance(x, Mapping):
+      for k, v in x.items():
+        rec(prefix + (k,), v)
+    else:
+      out.append((prefix, x))
+
+  rec((), state)
+  return out
+
+
+def shuffled_nested(flat, r):
+  """plain nested dict with the key order shuffled at every level"""
+  root = {}
+  for p, leaf in flat:
+    cur = root
+    for k in p[:-1]:
+      cur = cur.setdefault(k, {})
+    cur[p[-1]] = leaf
+
+  def reorder(d):
+    keys = list(d)
+    r.shuffle(keys)
+    return {k: (reorder(d[k]) if isinstance(d[k], dict) else d[k]) for k in keys}
+
+  return reorder(root)
+
+
+def rejoin_states(states, mode, seed):
+  """arguments for nnx.merge carrying the same leaves as `states`, in mappings whose insertion order is not sorted"""
+  import functools
+  import random as _random
+
+  r = _random.Random(seed)
+  if mode == 'joined':
+    idxs = list(range(len(states)))
+    r.shuffle(idxs)
+    k = r.randrange(1, len(idxs) + 1)
+    parts = [states[i] for i in idxs[:k]]
+    if r.random() < 0.5:
+      joined = nnx.merge_state(*parts)
+    else:
+      joined = functools.reduce(lambda a, b: a | b, parts)
+    args = [states[i] for i in idxs[k:]]
+    args.insert(r.randrange(len(args) + 1), joined)
+    return args
+  flat = [it for st in states for it in flat_objs(st)]
+  r.shuffle(flat)
+  if mode == 'from_flat':
+    return [nnx.State.from_flat_path(dict(flat))]
+  if mode == 'dict':
+    return [shuffled_nested(flat, r)]
+  raise ValueError(mode)
+
+
 def leaf_python(leaf):
   if 'arr' in leaf:
     return mk_data(leaf['arr'])
@@ -821,6 +881,10 @@ def gen_plan(rng, G):
     else:
       perm.insert(rng.randrange(len(perm) + 1), rng.choice(perm))
   plan['perm'] = perm
+  plan['merge_mode'] = 'perm'
+  if sorted(perm) == list(range(n_states)) and rng.random() < 0.4:
+    plan['merge_mode'] = rng.choice(['joined', 'joined', 'from_flat', 'dict'])
+    plan['merge_seed'] = rng.randrange(10**6)
   plan['state_filters'] = [random_filter(rng, paths) for _ in range(rng.randrange(0, 3))]
   # update: new leaves for a subset of the state's paths (+ alias paths, + occasional errors)
   upd = []
@@ -902,6 +966,7 @@ def exhaustive_graphs(n_nodes, slots=('a', 'b'), n_vars=2):
 EXH_PLANS = [
   {'filters': [], 'perm': [0], 'state_filters': [], 'pop_filters': [{'type': 'Intermediate'}]},
   {'filters': [{'type': 'Param'}, 'everything'], 'perm': [1, 0], 'state_filters': [{'tag': 'x'}], 'pop_filters': [{'type': 'Param'}, {'type': 'Variable'}]},
+  {'filters': [{'type': 'Intermediate'}, 'everything'], 'perm': [0, 1], 'merge_mode': 'joined', 'merge_seed': 1, 'state_filters': [], 'pop_filters': [{'tag': 'x'}]},
 ]
 
 
@@ -978,7 +1043,12 @@ def run_impl(plan):
     gd, states = r[1][0], list(r[1][1:])
     res['states'] = [flat_of_state(s) for s in states]
     perm_states = [states[i] for i in plan['perm'] if i < len(states)]
-    m = call(nnx.merge, gd, *perm_states)
+    mode = plan.get('merge_mode', 'perm')
+    if mode != 'perm' and all(isinstance(x, Mapping) for x in states):
+      # the same leaves handed to merge as differently ORDERED mappings (Python mapping equality ignores order)
+      m = call(lambda: nnx.merge(gd, *rejoin_states(states, mode, plan.get('merge_seed', 0))))
+    else:
+      m = call(nnx.merge, gd, *perm_states)
     if m[0] == 'ok':
       after = ob.snapshot(root)
       res['untouched'] = after['heap'][:n0] == before['heap'][:n0] and after['root'] == before['root'] and {a: v for a, v in ob.hv.items() if a < n0} == {a: v for a, v in hv0.items() if a < n0}
@@ -1131,6 +1201,7 @@ def check_one(ctx, plan, mo, stream):
   ctx.count('container_values', min(feats['containers'], 8))
   ctx.count('root_kind', 'none' if G['root'] is None else next(iter(G['root'])) if 'r' not in G['root'] else ('var' if 'vt' in G['heap'][G['root']['r']] else 'node'))
   ctx.count('n_filters', len(plan['filters']))
+  ctx.count('merge_mode', plan.get('merge_mode', 'perm'))
   ctx.count('hooked_variables', sum(1 for a in reachable(G) if 'vt' in G['heap'][a] and any(k.startswith('on_') for k, _ in G['heap'][a]['md'])))
   ctx.count('merge_args', 'permutation' if sorted(plan['perm']) == list(range(max(1, len(plan['filters'])))) else 'malformed')
   case = _small(plan)
@@ -1572,6 +1643,7 @@ def _run_case(ctx, drv, obj, stream):
     plan.setdefault('state_filters', [])
     plan.setdefault('update', None)
     plan.setdefault('update_split', None)
+    plan.setdefault('merge_mode', 'perm')
     plan.setdefault('self_update', True)
     plan.setdefault('pop_filters', None)
     check_batch(ctx, drv, [plan], stream)
